@@ -525,8 +525,11 @@ class Tensordot(Base):
         k = int(v['num_axes'])
         want = tensordot_oracle(a.dense(), a.order, b.dense(), b.order, k, v['mode'])
         sc = float(np.linalg.norm(a.dense())) * float(np.linalg.norm(b.dense())) + 1e4 * a.floor() * b.floor()
-        got = _res_dense(res)
         tags = ['mode=' + v['mode']]
+        if res.ranks[0] != 1 or res.ranks[-1] != 1:  # operands with boundary ranks 1 must give a result with boundary ranks 1
+            self.ck('value', False, [a, b], {'mode': v['mode'], 'k': k, 'result_ranks': list(res.ranks), 'why': 'boundary ranks of the result are not 1'}, tags)
+            return
+        got = _res_dense(res)
         if k == a.order and k == b.order:
             ok = got.size == 1 and abs(got.reshape(-1)[0] - want.reshape(-1)[0]) <= TOL * max(sc, 1e-300)
             self.ck('value_complete', ok, [a, b], {'mode': v['mode'], 'k': k}, tags)
